@@ -137,6 +137,18 @@ CHECKS['C19'] = dict(
     note=TB + 'Float representation of decimals is compared to the exact rational to 1e-12; file naming/JSON assembly checked in Python.',
     technique='Coq theorems over Q (floor/progression, bias direction) + kernel-evaluated correspondence through the CLI')
 
+CHECKS['C15'] = dict(
+    category='proof',
+    text=('Unbounded Coq theorems: every reported count (n_trials, n_fail, in-codespace count, per-sector flagged bits, per-sector trial '
+          'count) depends only on the multiset of trials (invariant under any permutation); merging files, splitting an entry, and '
+          'reordering files leave the pool of each key unchanged / permuted; only entries with the same key are pooled; p_est in [0,1], '
+          's^2 (n+1) = p(1-p); the word-error formula over R. Kernel-evaluated: counts of the real Analysis on random splits over '
+          'json/gz/zip/merged/nested containers and path lists equal the model counts on the pooled multiset; float columns (p_est, p_se, '
+          'word and single-qubit rates each with its own standard error) against closed forms to 1e-12.'),
+    design_ref='DESIGN.md section 5 C15',
+    note=TB + 'pandas groupby / file discovery are exercised, not modelled; Reals axioms for the word-error theorem.',
+    technique='Coq theorems (counts are permutation-invariant monoid homomorphisms) + kernel-evaluated count correspondence')
+
 NOT_APPLICABLE = {}
 
 PENDING = ['C02', 'C03', 'C04', 'C05', 'C06', 'C07', 'C08', 'C09', 'C10', 'C11', 'C12', 'C13', 'C14', 'C15',
